@@ -25,9 +25,17 @@ from . import QUBO
 # from PUBO, so can't say `from . import PCBO` here. Instead, just import
 # qubovert
 import qubovert as qv
+import os
 
 
 __all__ = 'PUBO',
+
+
+# verification hook (off unless JTIOSUE_QUBOVERT_VERIF=1): the last degree
+# reduction records, per source term, which substitutions were made, so
+# that large reductions can be validated by polynomial identity.
+_VERIF = os.environ.get("JTIOSUE_QUBOVERT_VERIF") == "1"
+_VERIF_LAST_CERTIFICATE = None
 
 
 class PUBO(BO, PUBOMatrix):
@@ -245,7 +253,10 @@ class PUBO(BO, PUBOMatrix):
 
         # do the reductions
         reductions = {}
+        _cert = [] if _VERIF else None
         for key, v in mapped_self.items():
+            if _cert is not None:
+                _cert.append({"key": key, "v": v, "subs": [], "final": None})
             # find a reduction if len(key) > deg
             while len(key) > deg:
                 # find a variable pair in k that has already been reduced.
@@ -291,6 +302,8 @@ class PUBO(BO, PUBOMatrix):
                 D += qv.PCBO().add_constraint_eq_AND(
                     z, x, y, lam=func_lam(v)
                 )
+                if _cert is not None:
+                    _cert[-1]["subs"].append((x, y, z, func_lam(v)))
 
                 # key is sorted, but it is not necessarily the case that
                 # z > all of the other elements in key. So let's efficiently
@@ -309,6 +322,14 @@ class PUBO(BO, PUBOMatrix):
                     key += (z,)
 
             D[key] += v
+            if _cert is not None:
+                _cert[-1]["final"] = key
+
+        if _cert is not None:
+            global _VERIF_LAST_CERTIFICATE
+            _VERIF_LAST_CERTIFICATE = {
+                "n": self.num_binary_variables, "deg": deg, "terms": _cert
+            }
 
     def to_pubo(self, deg=None, lam=None, pairs=None):
         """to_pubo.
